@@ -62,6 +62,9 @@ def gen_terms(rng, T, nf, xp):
             if v[0] == 0:
                 v = (FR(1, 64), v[1])
             vec.append(v)
+        if rng.random() < 0.3:
+            k = FR(2) ** rng.randint(-18, 40)       # terms of another scale (real parts stay above 2^-29, see C10.yvals)
+            vec = [(dblf(a * k), dblf(b * k)) for a, b in vec]
         out.append(vec)
     return out
 
@@ -188,7 +191,7 @@ def compare_value(B, xp, yp, m, x, cre, cim, mv, trc, st):
     st["interp"] += 1
     scale = max([abs(v[0]) + abs(v[1]) for v in yp] + [FR(0)])
     loose = FR(max(1.0, amp / B.AMP_MAX))
-    if not (abs(cv[0] - mv[0]) <= B.TOL * loose * max(abs(mv[0]), scale) and abs(cv[1] - mv[1]) <= B.TOL * loose * max(abs(mv[1]), scale)):
+    if not (abs(cv[0] - mv[0]) <= B.TOL * loose * max(abs(mv[0]), scale) + B.ABS_EPS and abs(cv[1] - mv[1]) <= B.TOL * loose * max(abs(mv[1]), scale) + B.ABS_EPS):
         return "x = %.17g: C %s vs model %s (cond %.2e)" % (float(x), B.fl2(cv), B.fl2(mv), ip.cond(trc))
     return None
 
@@ -275,7 +278,8 @@ def check_apply(ctx, R, rng, broken, ncal):
     for i in range(ncal):
         cfg = CONFIGS[i % len(CONFIGS)] if i < len(CONFIGS) else rng.choice(CONFIGS)
         nf = [1, 2, 3, 4, 5, 6, 8][(i + i // 7) % 7] if i < 14 else rng.choice([1, 2, 3, 4, 5, 6, 8, 10])
-        xp = B.knots(rng, nf, positive=True, kind="dy")
+        # every density: ordinary, narrow band (Hz apart at tens of GHz), a few ulps apart, wide log-spaced
+        xp = B.knots(rng, nf, positive=True, kind=["dy", "hz", "ulp", "log", "dy"][i % 5] if i < 10 else rng.choice(["dy", "hz", "ulp", "log"]))
         if xp[0] <= 0:
             xp = [x + 1 for x in xp]
         terms = gen_terms(rng, nterms[cfg], nf, xp)
